@@ -150,6 +150,7 @@ def pOp : P Op
   | "ga" :: ts => (pIntVec ts).map fun (v, ts) => (.getitem (.arr v), ts)
   | "cat" :: ts => (pCounted pSRecipe ts).map fun (rs, ts) => (.concat rs, ts)
   | "bi" :: t :: ts => some (.badItem (t.startsWith "v"), ts)     -- `bi a<k>` / `bi v<k>`
+  | "bo" :: t :: ts => some (.badItem (t.startsWith "v"), ts)     -- the same through `d |= {k: w}`
   | _ => none
 
 /-- Parse all operations (fuel = number of tokens). -/
@@ -242,7 +243,6 @@ def pXOp : P XOp
   | "xadd" :: ts => (pCounted pRecipe ts).map fun (rs, ts) => (.add rs, ts)
   | "xmul" :: ts => (pInt ts).map fun (k, ts) => (.mul k, ts)
   | "ximul" :: ts => (pInt ts).map fun (k, ts) => (.imul k, ts)
-  | "xcopy" :: ts => some (.copy, ts)
   | "xsort" :: ts => some (.sort, ts)
   | _ => none
 
